@@ -1131,6 +1131,108 @@ fn cases_override(n: u32) -> u32 {
     std::env::var("VERIF_C18_CASES").ok().and_then(|s| s.parse().ok()).unwrap_or(n)
 }
 
+
+// ---------------------------------------------------------------------------
+// long histories: more version rows of one kind than any bounded scan holds
+// ---------------------------------------------------------------------------
+
+/// A bulk load (the way an import or a migration writes): a few statements of a couple of hundred
+/// CREATE CONCEPT each, optionally followed by sweeping updates (more version rows per element).
+/// The version log of one kind then holds more rows than the collection layer's default scan
+/// bound (Collection::MAX_SEARCH_LIMIT = 1000 rows for an unbounded `query_last_ids`), which the
+/// short generated histories never reach (seeded change C18-2).
+#[derive(Clone, Debug, Serialize, Deserialize)]
+pub struct LongCase {
+    pub per_block: u16,
+    pub blocks: u8,
+    /// number of sweeping UPDATE statements after the load (each touches up to 150 elements)
+    pub sweeps: u8,
+}
+
+fn long_strategy() -> impl Strategy<Value = LongCase> {
+    (180u16..260, 5u8..9, 0u8..4).prop_map(|(per_block, blocks, sweeps)| LongCase { per_block, blocks, sweeps })
+}
+
+fn long_battery(w: &World, as_of: &str) -> Result<Json, String> {
+    let mut out = serde_json::Map::new();
+    for (name, text) in [
+        ("count_bulk", format!(r#"FIND(COUNT(?c)) WHERE {{ ?c CONCEPT {{type: "Service"}} }}{as_of}"#)),
+        ("count_all", format!(r#"FIND(COUNT(?c)) WHERE {{ ?c CONCEPT {{}} }}{as_of}"#)),
+        ("first", format!(r#"FIND(?c.id, ?c.name, ?c._system.version) WHERE {{ ?c CONCEPT {{name: "bulk-0-0"}} }}{as_of}"#)),
+        ("lowest", format!(r#"FIND(?c.name) WHERE {{ ?c CONCEPT {{type: "Service"}} }}{as_of} ORDER BY ?c.name ASC LIMIT 7"#)),
+        ("highest", format!(r#"FIND(?c.name) WHERE {{ ?c CONCEPT {{type: "Service"}} }}{as_of} ORDER BY ?c.name DESC LIMIT 7"#)),
+        ("versions", format!(r#"FIND(COUNT(?c)) WHERE {{ ?c CONCEPT {{type: "Service"}} FILTER(?c._system.version > 1) }}{as_of}"#)),
+    ] {
+        out.insert(name.to_string(), w.env.exec_ok(&text, Json::Null).map_err(|e| format!("{text}: {e}"))?);
+    }
+    // the whole name set, as a set
+    let text = format!(r#"FIND(?c.name) WHERE {{ ?c CONCEPT {{type: "Service"}} }}{as_of}"#);
+    let mut names: Vec<String> = w.env.exec_ok(&text, Json::Null).map_err(|e| format!("{text}: {e}"))?.as_array().cloned().unwrap_or_default().iter().map(|n| n.as_str().unwrap_or_default().to_string()).collect();
+    names.sort();
+    out.insert("names".into(), json!(names));
+    Ok(Json::Object(out))
+}
+
+fn run_long(c: &LongCase, ctx: &mut CaseCtx) -> Result<(), Fail> {
+    let harness = |msg: String| Fail { sig: "harness".into(), msg: format!("inconclusive: {msg}") };
+    let mut w = World::new("c18_long").map_err(harness)?;
+    let mut recorded: Vec<(u64, Json)> = vec![];
+    let mut record = |w: &World, recorded: &mut Vec<(u64, Json)>| -> Result<(), Fail> {
+        let seq = w.last_commit.as_ref().map(|c| c.seq).unwrap_or(0);
+        let live = long_battery(w, "").map_err(|e| Fail { sig: "long:live-read-refused".into(), msg: e })?;
+        recorded.push((seq, live));
+        Ok(())
+    };
+    for b in 0..c.blocks {
+        let mut text = String::from("MUTATE {\n");
+        for i in 0..c.per_block {
+            text.push_str(&format!("CREATE CONCEPT ?c{i} {{ TYPE \"Service\" NAME \"bulk-{b}-{i}\" SET ATTRIBUTES {{tier: {}}} }}\n", i % 5));
+        }
+        text.push('}');
+        let (done, _) = w.kml("bulk", &text, Json::Null);
+        if done != Done::Committed {
+            return Err(harness(format!("bulk block {b} did not commit: {done:?}")));
+        }
+        record(&w, &mut recorded)?;
+    }
+    for s in 0..c.sweeps {
+        let text = format!(r#"UPDATE ?c SET ATTRIBUTES {{note: "swept {s}"}} WHERE {{ ?c CONCEPT {{type: "Service"}} FILTER(?c.attributes.tier == {}) }} LIMIT 150"#, s % 5);
+        let (done, _) = w.kml("sweep", &text, Json::Null);
+        if done == Done::Committed {
+            record(&w, &mut recorded)?;
+        }
+    }
+    let total = c.blocks as u64 * c.per_block as u64;
+    ctx.count("concepts_loaded", total);
+    ctx.count("coordinates_recorded", recorded.len() as u64);
+    ctx.label(if total > 1000 { "more_than_1000_elements_of_one_kind" } else { "at_most_1000_elements_of_one_kind" });
+    let mut differing = 0u64;
+    let present = recorded.last().map(|(_, j)| j.clone()).unwrap_or(Json::Null);
+    for round in 0..2 {
+        for (seq, then) in &recorded {
+            let replayed = long_battery(&w, &format!(" AS OF SEQ {seq}")).map_err(|e| Fail { sig: "long:historical-read-refused".into(), msg: e })?;
+            ctx.count("replays", 1);
+            if &replayed != then {
+                let key = then.as_object().and_then(|o| o.keys().find(|k| replayed.get(k.as_str()) != then.get(k.as_str())).cloned()).unwrap_or_default();
+                let clip = |j: &Json| j.to_string().chars().take(300).collect::<String>();
+                return Err(Fail {
+                    sig: "long:replay-differs".into(),
+                    msg: format!("round {round}: after loading {total} concepts ({} blocks of {}, {} sweeps) the read '{key}' recorded live at sequence {seq} answers {} and replayed AS OF SEQ {seq} answers {}", c.blocks, c.per_block, c.sweeps, clip(&then[&key]), clip(&replayed[&key])),
+                });
+            }
+            if then != &present {
+                differing += 1;
+            }
+        }
+        // a later write, then everything again
+        let (done, _) = w.kml("later", r#"UPDATE ?c SET FIELDS {name: "renamed"} WHERE { ?c CONCEPT {name: "bulk-0-1"} }"#, Json::Null);
+        let _ = done;
+    }
+    ctx.count("replays_differing_from_the_present", differing);
+    ctx.nontrivial = total > 1000 && differing > 0;
+    Ok(())
+}
+
 pub fn run(r: &mut Runner) {
     r.assume("the coordinates of a read are its request echo (request_id, op_id), the snapshot context / token (response.snapshot, results[].context.snapshot_seq, results[].context.cursor) and the `snapshot_seq` DESCRIBE SCHEMA ENVIRONMENT AS OF adds to its answer; only these are removed before a replay is compared with its recording (none of the first two groups is emitted by the pinned engine)");
     r.assume("inside a projected belief the ledger's id lists and a slot's candidate list are sets: a replay that equals its recording after sorting exactly these lists (non-integer numbers within 1e-9) is accepted and counted as equal_up_to_set_order; a slot's `leading` is compared exactly unless two candidates tie for the highest support");
@@ -1151,6 +1253,13 @@ pub fn run(r: &mut Runner) {
         (cases_override(80), 1_600),
         hist_strategy,
         wrap(move |c: &Hist, ctx: &mut CaseCtx| run_history(&cfg, c, ctx)),
+    );
+    r.sub(
+        "long_histories",
+        "a bulk load of 5-8 statements x 180-259 CREATE CONCEPT (900-2070 elements of one kind, mostly more than the 1000 rows an unbounded collection scan returns by default) followed by 0-3 sweeping updates; a 7-read battery (counts, a by-name read, the 7 lowest / highest names, the number of elements with version > 1, the whole name set) is recorded live after every statement and replayed AS OF SEQ for every coordinate, twice (a later write in between); non-trivial = more than 1000 elements were loaded and some replay differs from the present",
+        (6, 120),
+        long_strategy,
+        wrap(run_long),
     );
     r.sub(
         "payload_immutability",
